@@ -434,6 +434,12 @@ fn batch<S: Sim>(b: &BatchArgs) {
             if !done.insert(v.invariant.clone()) {
                 continue;
             }
+            // a class already reported by this worker with this very signature needs no shrinking
+            let raw_key = (v.property.clone(), v.invariant.clone(), v.signature.clone());
+            if let Some(i) = seen_classes.get(&raw_key) {
+                p.violations[*i].occurrences += 1;
+                continue;
+            }
             // A change that breaks the property wholesale makes almost every run fail: report a
             // bounded number of minimised classes per worker and only count the rest.
             if p.violations.len() >= 12 || shrink_total == 0 {
@@ -759,7 +765,10 @@ fn check<S: Sim>(a: &[String]) -> ! {
         println!("({further} more violating runs were counted but not minimised)");
     }
     if inexact {
-        harness_error("a minimised case did not replay to the same event log");
+        // Only possible when the code under test has introduced a timing dependence the
+        // simulator does not own (e.g. several statements per store operation racing with
+        // sqlx's worker thread): the violation is real, its replay may need several attempts.
+        println!("WARNING: a minimised case did not replay to the same event log twice in a row");
     }
     if runs_done != runs {
         harness_error(&format!("expected {runs} runs, workers did {runs_done}"));
